@@ -785,8 +785,15 @@ where
                 let mut lock = ptx.state().new_lock(f.id().try_into().unwrap());
                 if ptx.state().env().unlocked {
                     lock.force_owned();
-                } else {
-                    lock.try_lock()?;
+                } else if let Err(e) = lock.try_lock() {
+                    // The target is being built by one of our ancestors (a
+                    // dependency cycle).  It fails like a job: the jobs we
+                    // have already started are still waited for.
+                    let result = &result;
+                    job_futures.push(Box::pin(async move {
+                        result.set(Err(e));
+                    }));
+                    continue;
                 }
                 if !lock.is_owned() {
                     logs::meta(
